@@ -248,9 +248,61 @@ func errChain(call *ssa.Call, opts ErrChainOpts) chainVerdict {
 		gate[r.Block()] = true
 	}
 	start := call.Block()
+	// a test "err == <sentinel>" placed BEFORE the nil test examines the error for its true branch:
+	// that branch may report success (the sentinel at a record boundary) and is not followed further
+	sentinelSuccs := func(b *ssa.BasicBlock) ([]*ssa.BasicBlock, bool) {
+		if opts.SentinelName == "" || len(b.Instrs) == 0 {
+			return nil, false
+		}
+		iff, ok := b.Instrs[len(b.Instrs)-1].(*ssa.If)
+		if !ok {
+			return nil, false
+		}
+		bo, ok := iff.Cond.(*ssa.BinOp)
+		if !ok || (bo.Op != token.EQL && bo.Op != token.NEQ) {
+			return nil, false
+		}
+		var other ssa.Value
+		switch {
+		case aliases[bo.X]:
+			other = bo.Y
+		case aliases[bo.Y]:
+			other = bo.X
+		default:
+			return nil, false
+		}
+		if !isGlobalLoad(other, opts.SentinelPkg, opts.SentinelName) {
+			return nil, false
+		}
+		eqSucc, neSucc := b.Succs[0], b.Succs[1]
+		if bo.Op == token.NEQ {
+			eqSucc, neSucc = neSucc, eqSucc
+		}
+		if len(eqSucc.Preds) != 1 {
+			return nil, false
+		}
+		// the sentinel branch must leave the function (with or without an error)
+		for rb := range dominatedRegion(eqSucc) {
+			last := rb.Instrs[len(rb.Instrs)-1]
+			switch last.(type) {
+			case *ssa.Return, *ssa.Panic:
+			default:
+				for _, s := range rb.Succs {
+					if !dominatedRegion(eqSucc)[s] {
+						return nil, false
+					}
+				}
+			}
+		}
+		sentinelUsed = true
+		return []*ssa.BasicBlock{neSucc}, true
+	}
 	if !gate[start] {
 		seen := map[*ssa.BasicBlock]bool{}
 		work := append([]*ssa.BasicBlock{}, start.Succs...)
+		if ss, ok := sentinelSuccs(start); ok {
+			work = append([]*ssa.BasicBlock{}, ss...)
+		}
 		if len(start.Succs) == 0 {
 			return chainVerdict{Detail: "the function returns without examining the error", Pos: call.Pos()}
 		}
@@ -273,7 +325,11 @@ func errChain(call *ssa.Call, opts ErrChainOpts) chainVerdict {
 				}
 				return chainVerdict{Detail: "a path from the call reaches a return without examining the error", Pos: InstrPos(b.Instrs[len(b.Instrs)-1])}
 			}
-			work = append(work, b.Succs...)
+			if ss, ok := sentinelSuccs(b); ok {
+				work = append(work, ss...)
+			} else {
+				work = append(work, b.Succs...)
+			}
 		}
 	}
 	return chainVerdict{OK: true, SentinelUsed: sentinelUsed,
